@@ -41,6 +41,45 @@ def _witness_generator(inner):
     return Witness()
 
 
+def _injected_generator(cfg):
+    """INJ: every board reachable in the TLC model (all placements of the small grid played with every joint action:
+    partial wires, blocked heads, connected agents) handed out as start state number key[1]; step, mask and observation
+    code are the real ones."""
+    import jax.numpy as jnp
+
+    from harness import inject
+    from jumanji.environments.routing.connector.generator import Generator
+    from jumanji.environments.routing.connector.types import Agent, State
+
+    states, _ = inject.dump_states(cfg["inject"][0], cfg["inject"][1], limit=None, var=None)
+    states = [dict(st["s"], type=st["type"]) for st in states if st["tl"] == 99]
+    seen = {}
+    for st in states:
+        if st["type"] != 2:            # not reached by a LAST timestep: the episode continues from this board
+            seen.setdefault(repr((st["grid"], st["agents"])), st)
+    tab = inject.thin([seen[k] for k in sorted(seen)], cfg.get("limit"))
+    cfg["episodes"] = len(tab)
+    n, k = cfg["ctor"]["grid_size"], cfg["ctor"]["num_agents"]
+    grids = jnp.asarray(np.array([t["grid"] for t in tab], dtype=np.int32))
+    arr = lambda f: jnp.asarray(np.array([t["agents"][f] for t in tab], dtype=np.int32))  # noqa: E731
+    ids, starts, targets, positions = arr("id"), arr("start"), arr("target"), arr("position")
+    assert grids.shape[1:] == (n, n) and ids.shape[1:] == (k,)
+
+    class InjectedGenerator(Generator):
+        def __init__(self):
+            super().__init__(grid_size=n, num_agents=k)
+
+        def __call__(self, key):
+            j = key[1] % grids.shape[0]
+            agents = Agent(id=ids[j], start=starts[j], target=targets[j], position=positions[j])
+            return State(grid=grids[j], step_count=jnp.array(0, jnp.int32), agents=agents, key=key)
+
+    return InjectedGenerator()
+
+
+INJ_PROPS = ["C03", "C04", "C05", "C06", "C07", "C09", "C12"]
+
+
 class Adapter(EnvAdapter):
     name = "Connector"
     props = ("C01", "C03", "C04", "C05", "C06", "C07", "C09", "C10", "C11", "C12")
@@ -73,6 +112,9 @@ class Adapter(EnvAdapter):
                 c("un10a10_t3", "uniform", 10, 10, 3, 3, 7, probe_cap=64),
                 # many resets of a crowded board (C10: agents boxed in at their start cell)
                 c("rw3a3_t7", "random_walk", 3, 3, 7, 72, 2, probe_cap=10),
+                # INJ: boards reachable in the 3x3 two-agent TLC model as start states, all 25 joint actions probed
+                c("inj3a2", "all", 3, 2, 50, 0, 1, inject=("MC_Connector", "MC_Connector_quick.cfg"), limit=600, post_terminal=0,
+                  policies=["random"], props=INJ_PROPS),
             ]
         out = []
         for gen in ("random_walk", "uniform"):
@@ -96,6 +138,8 @@ class Adapter(EnvAdapter):
         from jumanji.environments.routing.connector.generator import RandomWalkGenerator, UniformRandomGenerator
 
         k = cfg["ctor"]
+        if "inject" in cfg:
+            return Connector(generator=_injected_generator(cfg), time_limit=k["time_limit"])
         if k["generator"] == "default":
             # the registered default: Connector() builds its own RandomWalkGenerator(10, 10), time_limit 50
             env = Connector()
@@ -107,10 +151,17 @@ class Adapter(EnvAdapter):
             gen = UniformRandomGenerator(grid_size=k["grid_size"], num_agents=k["num_agents"])
         return Connector(generator=gen, time_limit=k["time_limit"])
 
+    def episode_key(self, cfg, ep, seed):
+        if "inject" not in cfg:
+            return None
+        from harness import inject
+
+        return inject.ep_key(ep)
+
     def cfg_record(self, cfg, env):
         k = cfg["ctor"]
         return dict(grid_size=k["grid_size"], num_agents=k["num_agents"], time_limit=k["time_limit"],
-                    generator=k["generator"], witness=k["generator"] != "uniform")
+                    generator=k["generator"], witness=k["generator"] not in ("uniform", "all"))
 
     # ---- probes ---------------------------------------------------------------------------
     def _collision_actions(self, env, state, rng, base):
